@@ -138,3 +138,52 @@ Theorem count_diffs_internal_sym s1 s2 ws rm :
   (fst (count_diffs_internal s1 s2 ws rm) == fst (count_diffs_internal s2 s1 ws rm))%Q /\
   (snd (count_diffs_internal s1 s2 ws rm) == snd (count_diffs_internal s2 s1 ws rm))%Q.
 Proof. unfold count_diffs_internal. apply internal_loop_sym. Qed.
+
+(* ---- the running accumulators of the "internal gaps only" counter against its definition by columns,
+   exhaustively on finite domains (kernel evaluation): every pair of rows of equal length 1..4 over the
+   codes A, C, R (ambiguous), N and gap, with and without removal of ambiguous matches, no weights; and
+   every pair of rows of length 5 over A, R and gap with the weights 1, 2, 1/2, 3, 1/4 *)
+Fixpoint zwords (n : nat) (alpha : list Z) : list (list Z) :=
+  match n with O => [[]] | S k => flat_map (fun w => map (fun c => c :: w) alpha) (zwords k alpha) end.
+Definition qpair_eqb (a b : Q * Q) : bool := Qeq_bool (fst a) (fst b) && Qeq_bool (snd a) (snd b).
+Definition internal_agree (n : nat) (alpha : list Z) (ws : option (list Q)) : bool :=
+  forallb (fun s1 => forallb (fun s2 => forallb (fun rm =>
+     qpair_eqb (count_diffs_internal s1 s2 ws rm) (count_diffs_internal_spec s1 s2 ws rm)) [true; false]) (zwords n alpha)) (zwords n alpha).
+
+Definition codes5 : list Z := [1; 2; 5; 15; 0]%Z.      (* A, C, R, N, gap *)
+Definition codes3 : list Z := [1; 5; 0]%Z.
+Definition weights5 : option (list Q) := Some [1; 2; 1#2; 3; 1#4]%Q.
+
+Lemma internal_agree_spec n alpha ws : internal_agree n alpha ws = true -> forall s1 s2 rm,
+  In s1 (zwords n alpha) -> In s2 (zwords n alpha) ->
+  (fst (count_diffs_internal s1 s2 ws rm) == fst (count_diffs_internal_spec s1 s2 ws rm))%Q /\
+  (snd (count_diffs_internal s1 s2 ws rm) == snd (count_diffs_internal_spec s1 s2 ws rm))%Q.
+Proof.
+  intros H s1 s2 rm I1 I2. unfold internal_agree in H. rewrite forallb_forall in H. specialize (H s1 I1).
+  rewrite forallb_forall in H. specialize (H s2 I2). rewrite forallb_forall in H.
+  assert (Hr : In rm [true; false]) by (destruct rm; cbn; auto). specialize (H rm Hr).
+  unfold qpair_eqb in H. apply andb_true_iff in H as [Ha Hb]. split; apply Qeq_bool_iff; assumption.
+Qed.
+
+Lemma internal_agree_1 : internal_agree 1 codes5 None = true. Proof. vm_compute. reflexivity. Qed.
+Lemma internal_agree_2 : internal_agree 2 codes5 None = true. Proof. vm_compute. reflexivity. Qed.
+Lemma internal_agree_3 : internal_agree 3 codes5 None = true. Proof. vm_compute. reflexivity. Qed.
+Lemma internal_agree_4 : internal_agree 4 codes5 None = true. Proof. vm_compute. reflexivity. Qed.
+Lemma internal_agree_5w : internal_agree 5 codes3 weights5 = true. Proof. vm_compute. reflexivity. Qed.
+
+Lemma internal_counter_is_column_spec_small :
+  (forall n s1 s2 rm, In n [1; 2; 3; 4]%nat -> In s1 (zwords n codes5) -> In s2 (zwords n codes5) ->
+     (fst (count_diffs_internal s1 s2 None rm) == fst (count_diffs_internal_spec s1 s2 None rm))%Q /\
+     (snd (count_diffs_internal s1 s2 None rm) == snd (count_diffs_internal_spec s1 s2 None rm))%Q) /\
+  (forall s1 s2 rm, In s1 (zwords 5 codes3) -> In s2 (zwords 5 codes3) ->
+     (fst (count_diffs_internal s1 s2 weights5 rm) == fst (count_diffs_internal_spec s1 s2 weights5 rm))%Q /\
+     (snd (count_diffs_internal s1 s2 weights5 rm) == snd (count_diffs_internal_spec s1 s2 weights5 rm))%Q).
+Proof.
+  split.
+  - intros n s1 s2 rm Hn. destruct Hn as [<-|[<-|[<-|[<-|[]]]]].
+    + exact (internal_agree_spec _ _ _ internal_agree_1 s1 s2 rm).
+    + exact (internal_agree_spec _ _ _ internal_agree_2 s1 s2 rm).
+    + exact (internal_agree_spec _ _ _ internal_agree_3 s1 s2 rm).
+    + exact (internal_agree_spec _ _ _ internal_agree_4 s1 s2 rm).
+  - exact (internal_agree_spec _ _ _ internal_agree_5w).
+Qed.
